@@ -3,6 +3,7 @@ use mmap_append::MmapAppend;
 use pocket_types::Event;
 use std::fs::{File, OpenOptions};
 use std::mem;
+use std::os::unix::fs::FileExt;
 use std::path::Path;
 use std::sync::atomic::{AtomicUsize, Ordering};
 
@@ -47,7 +48,18 @@ impl EventStore {
 
         // Determine if we just created it
         // (not long enough for the required end offset)
-        let new = len < mem::size_of::<usize>();
+        let mut new = len < mem::size_of::<usize>();
+
+        // A file that was sized but never initialized (the process died in between)
+        // starts with zeroes, whereas a valid end offset is never smaller than the
+        // header that holds it. Such a file holds no events: initialize it.
+        if !new {
+            let mut header = [0_u8; mem::size_of::<usize>()];
+            event_map_file.read_exact_at(&mut header, 0)?;
+            if usize::from_le_bytes(header) < mem::size_of::<usize>() {
+                new = true;
+            }
+        }
 
         // If brand new:
         if new {
